@@ -70,3 +70,69 @@ func VH_C04_constraints() {
 	vhRichReads("C04.constraints.accepted", db, rows)
 	vhRichSearch("C04.constraints.accepted", db, rows, field, "=")
 }
+
+// vhC04Orders records what order-sensitive reads return on a handle.
+func vhC04Orders(tag string, db *DB) []string {
+	var out []string
+	s := db.Search(&vObj{}, "A", ">=", int64(-9223372036854775808))
+	objs, err := s.Collect()
+	vAssert(tag+".collect", err == nil)
+	for _, o := range objs {
+		out = append(out, o.UUID())
+	}
+	out = append(out, "|rev")
+	robjs, err := db.Search(&vObj{}, "A", ">=", int64(-9223372036854775808)).Reverse().Collect()
+	vAssert(tag+".reverse", err == nil)
+	for _, o := range robjs {
+		out = append(out, o.UUID())
+	}
+	out = append(out, "|one")
+	if o, err := db.Search(&vObj{}, "A", ">=", int64(-9223372036854775808)).One(); err == nil {
+		out = append(out, o.UUID())
+	}
+	out = append(out, "|limit2")
+	lobjs, err := db.Search(&vObj{}, "A", ">=", int64(-9223372036854775808)).Limit(2).Collect()
+	vAssert(tag+".limit", err == nil)
+	for _, o := range lobjs {
+		out = append(out, o.UUID())
+	}
+	return out
+}
+
+// VH_C04_order: "the same ordering": with ties in an indexed field (values
+// are arbitrary, the solver chooses which coincide) and an object re-saved or
+// moved inside its group of equal values, Collect / Reverse / One / Limit
+// return the same sequences on the old handle and on a new handle opened
+// after Close (or, in synchronous mode, without Close).
+func VH_C04_order() {
+	db, root := vhOpenDB(vhCfgs[0])
+	var rows []*vObj
+	n := vLen("n", 2, vBound("N", 3))
+	for k := 0; k < n; k++ {
+		o := &vObj{A: vInt64("A"), S: "s", U: uint64(k)}
+		vAssert("C04.order.insert", db.InsertOrUpdate(o) == nil)
+		rows = append(rows, o)
+	}
+	switch vChoice("then", 3) {
+	case 0:
+	case 1: // plain re-save of the first object (delete + insert inside the index)
+		vAssert("C04.order.resave", db.InsertOrUpdate(rows[0]) == nil)
+	case 2: // the first object moves to an arbitrary value
+		rows[0].A = vInt64("A2")
+		vAssert("C04.order.move", db.InsertOrUpdate(rows[0]) == nil)
+	}
+	before := vhC04Orders("C04.order.before", db)
+	var db2 *DB
+	if vChoice("how", 2) == 0 {
+		db2 = vhReopen(db, root)
+	} else {
+		db2 = Open(root) // synchronous mode: every completed call is committed
+	}
+	after := vhC04Orders("C04.order.after", db2)
+	vAssert("C04.order.same_length", len(before) == len(after))
+	if len(before) == len(after) {
+		for i := range before {
+			vAssert("C04.order.same_sequence", before[i] == after[i])
+		}
+	}
+}
